@@ -82,6 +82,24 @@ func (w *World) EvalQuiescent() {
 				w.verdict("V25:ended-without-replaced-error key=%s call-ended-with=%q", key, txt)
 			}
 		}
+		// "a newer call replaces the older one": a call that ended with the
+		// replaced error must have a possible replacer, i.e. another call of the
+		// same key that is not known to have registered before it (a call started
+		// before a quiescent wait that precedes c's start has registered before c)
+		for _, c := range cs {
+			if isActive[c.Name] || !validCall(w, c) || !strings.Contains(ended[c.Name], "can only be called once per peer") {
+				continue
+			}
+			justified := false
+			for _, o := range cs {
+				if o != c && o.Gen >= c.Gen {
+					justified = true
+				}
+			}
+			if !justified {
+				w.verdict("V25:replaced-without-newer-call key=%s call=%s every other call of the key had registered before it", key, c.Name)
+			}
+		}
 	}
 
 	// ---- C22 (i)(ii): announcements at quiescence
